@@ -1,7 +1,7 @@
 """C19 - signal names and exit statuses convert consistently (finite tables: proof level)."""
 import re
 
-from .. import thir
+from .. import thir, pathx
 from ..cfg import CFG, call_sites
 from ..origin import origins, format_inputs, VALUE_CALLS, IDENTITY_CALLS
 from ..report import Skip
@@ -373,6 +373,39 @@ def run(ctx):
                     "the signal number is converted with <i32 as Into<Signal>> / <Signal as From<i32>>", pe.loc(pe.line), detail=str([t.callee.full for t in mir_into]))
     except Skip:
         pass
+
+    # ... and back: into_exitstatus puts the whole exit-code byte in bits 8..16 (no narrower mask), success is raw 0
+    try:
+        ie = ctx.anchor_one("R19.5", "ProcessEnd::into_exitstatus", facts.fns_matching(r"watchexec_events::process::ProcessEnd::into_exitstatus$"))
+        ms = [m_ for m_ in thir.find(thir.root(ie), "match") if m_["sty"].endswith("ProcessEnd")]
+        arms = {}
+        pathx.SUBST = pathx.let_substitutions(thir.root(ie), deep=True)
+        try:
+            for m_ in ms[:1]:
+                for a in m_["arms"]:
+                    for v in thir.pattern_variants(a["p"]):
+                        b_ = thir.peel(a["b"])
+                        while isinstance(b_, dict) and b_.get("k") == "block" and b_.get("e") is not None and all(st.get("k") == "let" for st in b_.get("s", [])):
+                            b_ = thir.peel(b_["e"])       # `{ let x = ..; f(x) }`: the value with its single-use lets read through
+                        arms.setdefault(v, pathx.desc(b_))
+        finally:
+            pathx.SUBST = {}
+        ee = arms.get("ExitError", "")
+        ok = ee.startswith("ExitStatusExt::from_raw(") and ee.endswith(" Shl 8)") and "NonZero::get(code)" in ee and not any(
+            op in ee for op in (" BitAnd ", " Rem ", " Shr ", " BitOr ", " Sub ", " Add ", " Mul ", " Div "))
+        ctx.require(ok and arms.get("Success") == "ExitStatusExt::from_raw(0)", "R19.5", "inverse-exit-code",
+                    "into_exitstatus: Success -> raw 0, ExitError(code) -> the code's byte shifted into bits 8..16, unmasked otherwise", ie.loc(ie.line), detail=str(arms)[:300],
+                    fail="into_exitstatus no longer maps ExitError(code) to `code << 8` over the whole byte (%s): exit codes do not survive ProcessEnd -> ExitStatus -> ProcessEnd" % ee)
+    except Skip:
+        pass
+
+    # the other spellings of a signal: the variant the unix signal source attaches to each OS listener (rule owned by C01) and the name written to JSON (rule owned by C16)
+    from . import c01 as _c01s, c16 as _c16s
+    for fn_, r_ in ((_c01s.signal_listeners, "R19.1"), (_c16s.signal_json_names, "R19.2")):
+        try:
+            fn_(ctx, r_)
+        except Skip:
+            pass
 
     # ---- R19.6 --map-signal
     try:
